@@ -160,9 +160,11 @@ func genStrRT(h *H) {
 }
 
 // json.maporder <html 0|1> <entries>: entries = "nil" | "empty" | comma-separated khex:vhex (distinct keys)
-//   I = hex of Append(map[string]string, SortMapKeys[|EscapeHTML]) + ";perm" when the output WITHOUT SortMapKeys has the
-//       same length, is valid and decodes (encoding/json) to the same map as the sorted output
-//   O = the same bytes from encoding/json (which always sorts) + ";perm"
+//
+//	I = hex of Append(map[string]string, SortMapKeys[|EscapeHTML]) + ";perm" when the output WITHOUT SortMapKeys has the
+//	    same length, is valid and decodes (encoding/json) to the same map as the sorted output
+//	O = the same bytes from encoding/json (which always sorts) + ";perm"
+//
 // Lean side: Model/Json/MapOrder.lean (theorems Props.C14.sortMapKeys_*).
 func init() {
 	ops["json.maporder"] = func(a []string) (string, string, string) {
